@@ -246,7 +246,7 @@ def make_sets(scn):
         td = np.dtype((scn.get('tdtypes') or [scn['tdtype']] * len(scn['sets']))[j])
         if td.kind != 'u':
             s = s - scn['amp'] // 2
-        s = s.astype(td)
+        s = (s + scn.get('offset', 0)).astype(td)
         if scn.get('half'):
             s = s + 0.5
         p = pt[:n].copy()
@@ -403,8 +403,12 @@ def settle_exact(scn):
             return scn
         if scn['amp'] > 1:
             scn['amp'] //= 2
-        else:
+        elif scn['precision'] != 'float64':
             scn['precision'] = 'float64'
+        elif scn.get('offset'):
+            scn['offset'] = 0           # (a later step of the generator made the history longer than the offset allows)
+        else:
+            return scn
 
 
 def generate(prop, seed, tier):
@@ -429,7 +433,20 @@ def generate(prop, seed, tier):
         scn['model'] = ['monobit', 0] if scn['kind'] == 'dpa' else 'hw'
         scn.pop('const_word', None)
         scn.pop('wide', None)
-    if len(scn['sets']) > 1 and not scn.get('half') and rng.stream(seed, 'rundtypes').random() < 0.35:
+    bi = rng.stream(seed, 'bigint')
+    u_bi = bi.random()
+    if scn['kind'] != 'mia' and not scn.get('step') and u_bi < 0.05:
+        # 32/64-bit integer storage (sums of averaged acquisitions) with values above 2^24: exact in float64, not representable in float32 - the
+        # samples must reach the accumulators of a float64 analysis without passing through a narrower type.  Few rows, so that the sums of
+        # squares stay below 2^53; no preprocess (the harness preprocesses return float32 themselves)
+        scn.update({'tdtype': bi.choice(['int32', 'uint32', 'int64']), 'offset': (1 << 24) + bi.choice([1, 3, 1001]), 'amp': 3, 'precision': 'float64',
+                    'chain': []})
+        scn['sets'] = [min(x, bi.randint(3, 12)) for x in scn['sets']][:2]
+        scn.pop('rule2', None)
+    elif scn['kind'] != 'mia' and u_bi < 0.10:
+        scn['tdtype'] = 'uint16'                  # 16-bit unsigned acquisitions over their full range
+        scn['amp'] = bi.choice([4095, 65535])
+    if len(scn['sets']) > 1 and not scn.get('half') and not scn.get('offset') and rng.stream(seed, 'rundtypes').random() < 0.35:
         # each container may store its samples in another dtype (8-bit acquisition, then 12-bit in int16, then a float export)
         rd = rng.stream(seed, 'rundtypes2')
         scn['tdtypes'] = [scn['tdtype']] + [rd.choice(['uint8', 'int16', 'float32']) for _ in scn['sets'][1:]]
